@@ -17,6 +17,7 @@ struct Args {
     scale: f64,
     run_seed: Option<u64>,
     determinism: Option<u64>,
+    hashes: Option<u64>,
 }
 
 fn parse_args() -> Args {
@@ -31,6 +32,7 @@ fn parse_args() -> Args {
         scale: 1.0,
         run_seed: None,
         determinism: None,
+        hashes: None,
     };
     while let Some(x) = it.next() {
         match x.as_str() {
@@ -42,6 +44,7 @@ fn parse_args() -> Args {
                 }
             }
             "--replay" => a.replay = it.next(),
+            "--hashes" => a.hashes = it.next().and_then(|s| s.parse().ok()),
             "--determinism" => a.determinism = it.next().and_then(|s| s.parse().ok()),
             "--run-seed" => a.run_seed = it.next().and_then(|s| s.parse().ok()),
             "--runs-scale" => a.scale = it.next().and_then(|s| s.parse().ok()).unwrap_or(1.0),
@@ -69,12 +72,17 @@ struct Plan<'a> {
     scale: f64,
     run_seed: Option<u64>,
     determinism: Option<u64>,
+    hashes: Option<u64>,
     det_bad: usize,
     assumptions: Vec<&'static str>,
 }
 
 impl Plan<'_> {
     fn part<E: Engine>(&mut self, eng: E, quick: u64, thorough: u64, rule: &str) {
+        if let Some(n) = self.hashes {
+            simcore::engine::print_hashes(self.ctx, &eng, n);
+            return;
+        }
         if let Some(n) = self.determinism {
             let bad = simcore::engine::determinism_check(self.ctx, &eng, n);
             println!("determinism[{}]: {} seeds x2, {} differ", eng.name(), n, bad.len());
@@ -162,9 +170,12 @@ fn main() {
         let text = std::fs::read_to_string(path).unwrap_or_else(|e| die(&format!("{path}: {e}")));
         serde_json::from_str::<serde_json::Value>(&text).unwrap_or_else(|e| die(&format!("{path}: {e}")))
     });
-    let mut p = Plan { ctx: &ctx, report: Report::default(), replay: replay_val.as_ref(), replay_result: None, scale: args.scale, run_seed: args.run_seed, determinism: args.determinism, det_bad: 0, assumptions: vec![] };
+    let mut p = Plan { ctx: &ctx, report: Report::default(), replay: replay_val.as_ref(), replay_result: None, scale: args.scale, run_seed: args.run_seed, determinism: args.determinism, hashes: args.hashes, det_bad: 0, assumptions: vec![] };
     plan(&mut p);
 
+    if args.hashes.is_some() {
+        return;
+    }
     if args.determinism.is_some() {
         std::process::exit(if p.det_bad == 0 { 0 } else { 2 });
     }
